@@ -118,6 +118,20 @@ func scenarioC08(x *runner.X) {
 			return hreq{"POST", "/", b, t.Pick(-1, 10, 0), m + " oversized"}
 		}
 		v := vals[t.Intn(len(vals))]
+		if t.Bool(0.35) {
+			// a well-formed key with a configuration object whose members carry every kind of JSON
+			// value, null included: each member is optional in the protocol
+			which := t.Intn(3)
+			key := []string{fmt.Sprint(goodSlot), `"` + goodSig + `"`, `"` + goodAddr + `"`}[which]
+			m = []string{"getBlock", "getTransaction", "getSignaturesForAddress"}[which]
+			names := [][]string{{"encoding", "transactionDetails", "rewards", "maxSupportedTransactionVersion", "commitment"}, {"encoding", "maxSupportedTransactionVersion", "commitment"}, {"limit", "before", "until", "minContextSlot", "commitment"}}[which]
+			hostile := []string{`null`, `null`, `null`, `5`, `"x"`, `[]`, `{}`, `true`, `false`, `-1`, `1e30`, `"base64"`, `"json"`, `"none"`, `0`}
+			var ms []string
+			for i := t.Range(1, 3); i > 0; i-- {
+				ms = append(ms, fmt.Sprintf("%q: %s", names[t.Intn(len(names))], hostile[t.Intn(len(hostile))]))
+			}
+			v = "[" + key + ", {" + strings.Join(ms, ", ") + "}]"
+		}
 		return hreq{"POST", "/", []byte(fmt.Sprintf(`{"jsonrpc":"2.0","id":%s,"method":%q,"params":%s}`, []string{"1", `"a"`, "null", "1.5"}[t.Intn(4)], m, v)), -1, m + " params=" + clipS(v, 60)}
 	}
 	nClients := t.Range(1, 3)
@@ -149,8 +163,9 @@ func scenarioC08(x *runner.X) {
 	x.Sim(runner.SimOpts{Phase: "hostile-requests", Cfg: dsim.Config{MaxSteps: 600000, MaxSimTime: 10 * time.Hour, NoTimerRace: true, TickPerStep: time.Microsecond}}, func() {
 		s := dsim.Active()
 		multi := NewMultiEpoch(&Options{EpochSearchConcurrency: t.Pick(2, 1, -1)})
+		srvLoad := newServerLoader()
 		for i := 0; i < nLoaded; i++ {
-			ep, err := loadEpoch(worlds[i].cfg)
+			ep, err := srvLoad(worlds[i].cfg)
 			if err != nil {
 				s.Fail("harness", "loadEpoch", err.Error())
 			}
